@@ -183,6 +183,12 @@ def ev(v, val, hooks=None):
         raise CannotEval('no valuation for %s' % show(v))
     if isinstance(v, TupleV):
         return tuple(ev(x, val, hooks) for x in v.items)
+    from .values import ExtRef
+    if isinstance(v, ExtRef) and hooks:
+        for h in hooks:
+            r = h(v, val)
+            if r is not NotImplemented:
+                return r
     if isinstance(v, ListV):
         return [ev(x, val, hooks) for x in v.items]
     if isinstance(v, Obj):
